@@ -26,7 +26,8 @@ def main():
     ap.add_argument("--replay")
     a = ap.parse_args()
     try:
-        mod = importlib.import_module("native.p" + a.pid[1:])
+        # "A-RE" etc.: bounded validation modules of assumed contracts share the interface of the property modules
+        mod = importlib.import_module("native." + ("a_re" if a.pid == "A-RE" else "p" + a.pid[1:]))
     except ModuleNotFoundError:
         if not a.replay:
             raise
